@@ -243,3 +243,48 @@ Section Logit.
     unfold Rlogit_bwd, logit_bwd, Rlogit_ldjc, logit_ldjc, vec, two. simpl. unfold Rlogit_v1. lra.
   Qed.
 End Logit.
+
+(* ---- additive coupling (affine = false): u_i = x_i - imask_i * t_i(mask * x), reported log-det 0 ---- *)
+Section CouplingAdd.
+  Variable n : nat.
+  Variable mask : nat -> bool.
+  Variable cond : condT R.
+  Let maskv : list R := vec R n (fun i => if mask i then 1 else 0).
+  Let imaskv : list R := vec R n (fun i => if mask i then 0 else 1).
+
+  Definition cpa_map (x : list R) : list R := fst (Rcoupling_bwd false n maskv imaskv cond x).
+
+  Lemma cpa_coord x i : (i < n)%nat ->
+    (cpa_map x)@i = x@i - imaskv@i * (fst (cond (coupling_in R 0 Rmult n maskv x)))@i.
+  Proof.
+    intros Hi. unfold cpa_map, Rcoupling_bwd, coupling_bwd.
+    destruct (cond (coupling_in R 0 Rmult n maskv x)) as [t s]. simpl. now rewrite Rvnth.
+  Qed.
+
+  Theorem cpa_jacobian_zero x i j : length x = n -> (i < n)%nat -> (j < n)%nat -> i <> j ->
+    (mask i = true \/ mask j = false) -> is_derive (partial cpa_map x i j) x@j 0.
+  Proof.
+    intros Hx Hi Hj Hij Hm.
+    apply (is_derive_ext (fun _ => (cpa_map x)@i)); [|apply @is_derive_const].
+    intro h. unfold partial. rewrite !cpa_coord by auto.
+    unfold Rupd at 1. rewrite upd_nth_neq by auto.
+    destruct (mask j) eqn:Mj.
+    - destruct Hm as [Mi|]; [|discriminate]. unfold imaskv. rewrite !Rvnth by auto. rewrite Mi. lra.
+    - unfold maskv. now rewrite (cp_in_indep n mask x j h Hx Hj Mj).
+  Qed.
+
+  Theorem cpa_jacobian_diag x i : length x = n -> (i < n)%nat -> is_derive (partial cpa_map x i i) x@i 1.
+  Proof.
+    intros Hx Hi. destruct (mask i) eqn:Mi.
+    - apply (is_derive_ext (fun h => h)); [|apply @is_derive_id].
+      intro h. unfold partial. rewrite cpa_coord by auto. unfold Rupd at 1. rewrite upd_nth_eq by lia.
+      unfold imaskv. rewrite !Rvnth by auto. rewrite Mi. lra.
+    - apply (is_derive_ext (fun h => h - imaskv@i * (fst (cond (coupling_in R 0 Rmult n maskv x)))@i)).
+      + intro h. unfold partial. rewrite cpa_coord by auto. unfold maskv. rewrite (cp_in_indep n mask x i h Hx Hi Mi).
+        unfold Rupd. rewrite upd_nth_eq by lia. reflexivity.
+      + auto_derive; [exact I|lra].
+  Qed.
+
+  Lemma cpa_ldj x : snd (Rcoupling_bwd false n maskv imaskv cond x) = 0.
+  Proof. unfold Rcoupling_bwd, coupling_bwd. destruct (cond (coupling_in R 0 Rmult n maskv x)). reflexivity. Qed.
+End CouplingAdd.
